@@ -467,6 +467,21 @@ func TestCheck(t *testing.T) {
 	if env.Thorough() {
 		hx.ExploreScenarios(t, env, rep, "db-2op-vs-1op-all-interleavings", pairs2, -1, false, nil)
 		hx.ExploreScenarios(t, env, rep, "db-triples-2op-bound3", triples, 3, false, nil)
+		// 2-op vs 2-op programs, all interleavings
+		var pairs22 []hx.Scenario
+		for _, pre := range prestates {
+			for _, a1 := range muts {
+				for _, a2 := range muts {
+					for _, b1 := range muts {
+						for _, b2 := range alphabet {
+							progs := [][]op{{a1, a2}, {b1, b2}}
+							pairs22 = append(pairs22, hx.Scenario{Name: progName(pre, progs, false), Make: scenario(pre, progs, false)})
+						}
+					}
+				}
+			}
+		}
+		hx.ExploreScenarios(t, env, rep, "db-2op-vs-2op-all-interleavings", pairs22, -1, false, nil)
 	} else {
 		// quick: every 7th 2-op scenario and the triples at bound 1
 		var sub []hx.Scenario
